@@ -131,7 +131,7 @@ def constructors_and_writers(an, rep):
             state_fields = {f["name"] for f in adt["variants"][0]["fields"]}
         if adt["path"] == "desert_core::adt::AdtMetadata":
             meta_fields = {f["name"] for f in adt["variants"][0]["fields"]}
-    R.floor("State fields", len(state_fields), 6)
+    R.floor("State fields", len(state_fields), 2)
     R.floor("AdtMetadata fields", len(meta_fields), 5)
     builders = {"desert_core::state::State": [], "desert_core::adt::AdtMetadata": []}
     default_refs = []
@@ -195,14 +195,11 @@ def constructors_and_writers(an, rep):
     for k, cs in sorted(ctx_callers.items()):
         R.check(cs <= want_callers[k] and bool(cs), k, "callers", "a context is built by %s; inside the library only the entry point "
                 "%s may do that" % (sorted(cs), sorted(want_callers[k])), sample={"ctor": k, "called_from": sorted(cs)})
-    allowed_writers = {
-        "strings_by_id": {"State::store_string"}, "ids_by_string": {"State::store_string"},
-        "last_string_id": {"State::store_string"}, "refs_by_id": {"State::store_ref"},
-        "ids_by_ref": {"State::store_ref"}, "last_ref_id": {"State::store_ref"},
-    }
+    # whatever the tables are called and however they are grouped: only the two numbering functions touch them
+    allowed = {"State::store_string", "State::store_ref"}
     for fld in sorted(state_fields):
         ws = writers.get(fld, set())
-        R.check(ws <= allowed_writers.get(fld, set()), "State." + fld, "writers", "field is mutably used by %s" % sorted(ws),
+        R.check(ws <= allowed, "State." + fld, "writers", "field is mutably used by %s" % sorted(ws),
                 sample={"field": fld, "writers": sorted(ws)})
     for fld in sorted(meta_fields):
         ws = writers.get("meta." + fld, set())
